@@ -51,13 +51,18 @@ def message_bounds(stream):
     return out
 
 
-def raw_client(addr, data, ending='fin', hold=0.0, after=None):
-    """Connect, send `data`, optionally run after(sock), then close with FIN or RST."""
+def raw_client(addr, data, ending='fin', hold=0.0, after=None, split_last=0.0):
+    """Connect, send `data` (optionally holding back its last byte for split_last seconds), optionally
+    run after(sock), then close with FIN or RST."""
     s = socket.socket(socket.AF_INET, socket.SOCK_STREAM)
     s.settimeout(5)
     try:
         s.connect(tuple(addr))
-        if data:
+        if data and split_last and len(data) > 1:
+            s.sendall(data[:-1])
+            time.sleep(split_last)
+            s.sendall(data[-1:])
+        elif data:
             s.sendall(data)
         res = after(s) if after else None
         if hold:
